@@ -207,53 +207,7 @@ func c17(r *core.Report) {
 
 	// ---- C17-FIELDS
 	r.Rule("C17-FIELDS", "Marshal/Parse/Equal/IsZero of a key type touch the same field set: all fields", 7)
-	for _, kt := range []struct {
-		typ   string
-		funcs []string
-	}{
-		{"PublicKey", []string{"MarshalPublicKey", "ParsePublicKey", "EqualPublicKeys", "PublicKey.IsZero"}},
-		{"PrivateKey", []string{"MarshalPrivateKey", "ParsePrivateKey", "PrivateKey.IsZero"}},
-	} {
-		n := needNamed(r, "f/x509", kt.typ)
-		if n == nil {
-			continue
-		}
-		st := n.Underlying().(*types.Struct)
-		all := map[string]bool{}
-		for i := 0; i < st.NumFields(); i++ {
-			all[st.Field(i).Name()] = true
-		}
-		for _, fnm := range kt.funcs {
-			fn := needFn(r, "f/x509", fnm)
-			if fn == nil {
-				continue
-			}
-			touched := map[string]bool{}
-			for _, in := range core.AllInstrs(fn) {
-				switch x := in.(type) {
-				case *ssa.FieldAddr:
-					if isNamed(x.X.Type(), n) {
-						f, _ := core.FieldOfAddr(x)
-						touched[f.Name()] = true
-					}
-				case *ssa.Field:
-					if isNamed(x.X.Type(), n) {
-						touched[st.Field(x.Field).Name()] = true
-					}
-				}
-			}
-			missing := []string{}
-			for f := range all {
-				if !touched[f] {
-					missing = append(missing, f)
-				}
-			}
-			sort.Strings(missing)
-			r.Check(len(missing) == 0, "C17-FIELDS", core.FnName(fn), p.Pos(fn.Pos()), "touches every field of "+kt.typ,
-				fmt.Sprintf("does not touch field(s) %v of %s: two keys that differ there are treated as the same key (or the field is lost in a round trip)", missing, kt.typ))
-		}
-		// Equal must compare each field of a with the same field of b
-	}
+	ruleKeyFields(r, "C17-FIELDS", false)
 
 	// ---- C17-FP-CANON
 	r.Rule("C17-FP-CANON", "default fingerprinters hash the canonical re-marshalled key only, with the same hash everywhere", 7)
@@ -531,4 +485,61 @@ func returnsHashOutput(v ssa.Value, hash *ssa.Call) bool {
 		return false
 	}
 	return core.DerivesFromDirect(out, func(x ssa.Value) bool { return x == ssa.Value(cell) })
+}
+
+// ruleKeyFields (shared by C17 and, for EqualPublicKeys only, by C05): the codec, equality and zero
+// functions of a key type touch every field of the type.
+func ruleKeyFields(r *core.Report, ruleID string, equalOnly bool) {
+	p := r.P
+	for _, kt := range []struct {
+		typ   string
+		funcs []string
+	}{
+		{"PublicKey", []string{"MarshalPublicKey", "ParsePublicKey", "EqualPublicKeys", "PublicKey.IsZero"}},
+		{"PrivateKey", []string{"MarshalPrivateKey", "ParsePrivateKey", "PrivateKey.IsZero"}},
+	} {
+		n := needNamed(r, "f/x509", kt.typ)
+		if n == nil {
+			continue
+		}
+		st := n.Underlying().(*types.Struct)
+		all := map[string]bool{}
+		for i := 0; i < st.NumFields(); i++ {
+			all[st.Field(i).Name()] = true
+		}
+		for _, fnm := range kt.funcs {
+			if equalOnly && fnm != "EqualPublicKeys" {
+				continue
+			}
+			fn := needFn(r, "f/x509", fnm)
+			if fn == nil {
+				continue
+			}
+			touched := map[string]bool{}
+			for _, in := range core.AllInstrs(fn) {
+				switch x := in.(type) {
+				case *ssa.FieldAddr:
+					if isNamed(x.X.Type(), n) {
+						f, _ := core.FieldOfAddr(x)
+						touched[f.Name()] = true
+					}
+				case *ssa.Field:
+					if isNamed(x.X.Type(), n) {
+						touched[st.Field(x.Field).Name()] = true
+					}
+				}
+			}
+			missing := []string{}
+			for f := range all {
+				if !touched[f] {
+					missing = append(missing, f)
+				}
+			}
+			sort.Strings(missing)
+			r.Check(len(missing) == 0, ruleID, core.FnName(fn), p.Pos(fn.Pos()), "touches every field of "+kt.typ,
+				fmt.Sprintf("does not touch field(s) %v of %s: two keys that differ there are treated as the same key (or the field is lost in a round trip)", missing, kt.typ))
+		}
+		// Equal must compare each field of a with the same field of b
+	}
+
 }
